@@ -114,13 +114,16 @@ class SEnum(Item):
 
 class UStruct(Item):
     PREFIX = "U"; sized = False
-    def _init(self, fields, form="named"):
+    def _init(self, fields, form="named", sys=False):
         assert not fields[-1].sized and all(f.sized for f in fields[:-1])
         self.fields = fields; self.form = form
+        # member of the systematic family (every ordered pair / triple of field layout classes in front of a tail):
+        # swept by the layout and emplace engines only
+        self.sys = sys
         # the macro's default impl does not compile for tuple-form unsized structs (not accepted => not in scope)
         self.default = all(f.default for f in fields) and form == "named"
         self.portable = all(f.portable for f in fields)
-    def spec(self): return "ustruct%s(%s)" % ("" if self.form == "named" else "_t", ",".join(f.spec() for f in self.fields))
+    def spec(self): return "ustruct%s(%s)%s" % ("" if self.form == "named" else "_t", ",".join(f.spec() for f in self.fields), ";sys" if self.sys else "")
 
 class UEnum(Item):
     PREFIX = "W"; sized = False
@@ -560,6 +563,14 @@ def catalog(thorough):
     # a tail vector of composite elements whose SIZE is not a multiple of the struct's ALIGN (the struct's extent
     # is the rounded-up extent of its tail)
     add(get(UStruct, [U64, Vec(Arr(U32, 2), U32)])); add(get(UStruct, [U32, Vec(Arr(U8, 3), U8)])); add(get(UStruct, [U64, Vec(P_u8u32, U16)]))
+    # SYSTEMATIC family: every ordered pair (thorough: every ordered triple) of field layout classes
+    # (size, alignment) in {(1,1) (2,2) (4,4) (8,8) (0,4) (3,1) (1,1 constrained)} in front of a byte-vector tail
+    KINDS = [U8, U16, U32, U64, Arr(U32, 0), Arr(U8, 3), BOOL]
+    for combo in itertools.product(KINDS, repeat=2):
+        add(get(UStruct, list(combo) + [V88], "named", True))
+    if thorough:
+        for combo in itertools.product(KINDS, repeat=3):
+            add(get(UStruct, list(combo) + [V88], "named", True))
     # #[default] on a non-first variant behind a doc comment, the first variant being a unit variant as well
     add(get(UEnum, "u8", [("unit", []), ("tuple", [U16]), ("unit", [])], 2)); add(get(UEnum, "u16", [("unit", []), ("tuple", [V88]), ("tuple", [U32]), ("unit", [])], 3))
     # a zero-sized but ALIGNED field in the middle of a field list (every statement of the layout rule must pad for it)
